@@ -26,7 +26,8 @@ Fixpoint path_eqb (a b : path) : bool :=
 (* ---- the store -------------------------------------------------------------- *)
 Inductive node :=
 | Leaf (z : Z)
-| FunSum                       (* a function object: sum of the integer members of a container *)
+| Fun (two : bool)             (* a function object: the sum of the integer members of a container (Fun false), or of its
+                                  first two members only (Fun true); which function sits at a location is part of the data *)
 | Dict (kids : list (N * node)).
 
 Fixpoint nget (n : node) (p : path) : option node :=
@@ -69,11 +70,16 @@ Inductive proj := PReal | PImag | PNum | PDen.
 Definition proj_val (k : proj) (x : Z) : Z :=
   match k with PReal | PNum => x | PImag => 0 | PDen => 1 end.
 
+Notation FunSum := (Fun false).
+
 Inductive expr :=
 | EConst (z : Z)
 | ERef (p : path)
 | EBin (o : binop) (a b : expr)
 | ECallSum (f : path) (arg : path)      (* f(arg) where the store holds FunSum at f *)
+| ECallSum2 (f : path) (arg : path)     (* f(arg) for a function that reads only the FIRST TWO members of the container arg:
+                                           the container may then hold the target of the definition itself (an ancestor of
+                                           the target is read as one value) without the definition reading its own target *)
 | EProj (k : proj) (a : expr).          (* an attribute of an expression's VALUE: (a).real, .imag, .numerator, .denominator —
                                            an AttrRef whose owner is an expression node, not a container *)
 
@@ -98,7 +104,13 @@ Fixpoint eval (st : node) (e : expr) : option node :=
       end
   | ECallSum f a =>
       match nget st f, nget st a with
-      | Some FunSum, Some (Dict kids) => option_map Leaf (sum_leaves kids)
+      | Some (Fun false), Some (Dict kids) => option_map Leaf (sum_leaves kids)
+      | Some (Fun true), Some (Dict (k1 :: k2 :: _)) => option_map Leaf (sum_leaves [k1; k2])
+      | _, _ => None
+      end
+  | ECallSum2 f a =>
+      match nget st f, nget st a with
+      | Some (Fun _), Some (Dict (k1 :: k2 :: _)) => option_map Leaf (sum_leaves [k1; k2])
       | _, _ => None
       end
   | EProj k a =>
@@ -115,6 +127,7 @@ Fixpoint reads (e : expr) : list path :=
   | ERef p => [p]
   | EBin _ a b => reads a ++ reads b
   | ECallSum f a => [f; a]
+  | ECallSum2 f a => [f; a]
   | EProj _ a => reads a
   end.
 
